@@ -217,6 +217,23 @@ def settings_of(a):
 
 # ---- C17 child ---------------------------------------------------------------------------------
 
+def _disturb_process_state(klepto, km):
+    """something an earlier, unrelated part of the session may have done with the same kind of keymap: a call
+    whose argument cannot be keyed (a generator) through a safe decorator, which degrades to plain evaluation.
+    Keys computed afterwards must not depend on it."""
+    try:
+        import klepto.safe
+        g = klepto.safe.inf_cache(keymap=gen.build_keymap(klepto, km))(lambda *a, **k: 0)
+        g((i for i in ()))
+        g(x=(i for i in ()))
+        try:
+            g.key((i for i in ()))
+        except Exception:
+            pass
+    except Exception:
+        pass
+
+
 def c17_keys(klepto, job):
     from kv import keymon
     import random
@@ -230,6 +247,7 @@ def c17_keys(klepto, job):
             # process state differs between sessions: here a sibling function (same code object, other
             # defaults) has been used through klepto before the function under test
             tgt.use_elder(keymon.make_deco(case), keymon.make_keygen(case))
+            _disturb_process_state(klepto, cell['keymap'])
         f = tgt.decorate(keymon.make_deco(case))
         kg = keymon.make_keygen(case)(tgt.plain)
         keys = []
@@ -261,6 +279,7 @@ def c17_session(klepto, job):
         tgt = keymon.Target(cell['spec'], cell.get('tkind', 'func'), rmode=('falsy' if rm == 'tuple' else rm))
         if job['shuffle_seed'] % 2 == 0:
             tgt.use_elder(keymon.make_deco({'keymap': cell['keymap'], 'deco': 'inf', 'safe': False, 'ignore': cell.get('ignore')}))
+            _disturb_process_state(klepto, cell['keymap'])
         fn = tgt.plain
         mod = klepto.safe if cell.get('safe') else klepto
         cls = getattr(mod, cell['deco'] + '_cache')
